@@ -636,3 +636,61 @@ def replay_behaviour(sc, steps, seed=0, stop_on=None):
     finally:
         w.close()
     return done, None, w
+
+
+# ------------------------------------------------------------------------------------------------ fault enumeration (C10)
+def kernel_invariant(w):
+    """C10's own predicate on the real objects: kernel SAD == SAs of the CHILD_SAs of the listed IKE_SAs."""
+    for e in 'AB':
+        kk = {(r['daddr'], bytes(r['spi'])) for r in w.kernel[e].sad.values()}
+        tr = w.tracked_kernel_keys(e)
+        if kk != tr:
+            return e, sorted((a, s.hex()) for a, s in tr), sorted((a, s.hex()) for a, s in kk)
+    return None
+
+
+def count_kernel_requests(w):
+    return sum(1 for e in 'AB' for r in w.kernel[e].requests if r['kind'] in ('NEWSA', 'DELSA'))
+
+
+def fault_replay(sc, steps, refuse_at, err=17, seed=0):
+    """Replay the action sequence with the refuse_at-th NEWSA/DELSA request (counted over both endpoints, after start-up)
+    answered with an error.  Only the invariant is judged after the fault (the property does not fix how an endpoint
+    recovers); the behaviour is followed as far as its datagrams still exist.
+    Returns (steps done, violation dict or None, refused request description or None)."""
+    w = IkeWorld(sc, seed=seed)
+    base = count_kernel_requests(w)
+    state = {'n': 0, 'hit': None}
+
+    def refuse(idx, req):
+        if req['kind'] not in ('NEWSA', 'DELSA'):
+            return 0
+        state['n'] += 1
+        if state['n'] == refuse_at:
+            state['hit'] = f"{req['kind']} spi={bytes(req['spi']).hex()} dst={req['daddr']}"
+            return err
+        return 0
+    for e in 'AB':
+        w.kernel[e].refuse = refuse
+    done = 0
+    try:
+        for a, dd, tgt in steps:
+            try:
+                out, sender, ctx = perform(w, a)
+                note_gens(w, a, tgt)
+                if out is not None:
+                    w.note_emitted(sender, out, ctx)
+            except Mismatch:
+                if state['hit'] is None:
+                    raise
+                break                       # diverged after the fault: the datagram the spec wants does not exist
+            except wd.Escape as ex:
+                return done, {'kind': 'escape', 'what': str(ex), 'refused': state['hit']}, state['hit']
+            bad = kernel_invariant(w)
+            if bad is not None:
+                return done, {'kind': 'kernel_invariant', 'endpoint': bad[0], 'tracked': bad[1], 'installed': bad[2],
+                              'refused': state['hit'], 'after': a['a']}, state['hit']
+            done += 1
+    finally:
+        w.close()
+    return done, None, state['hit']
